@@ -246,6 +246,7 @@ structure SeqVal where
   params : Option String
   seed : Option Nat
   cfg : Coba.C06.Config
+  rej : Option RejConfig := none      -- phase 6: the evaluator object is a RejectionCB(record, cpct, cmax, cinit)
 
 def parseSeqEnv (j : Json) : Except String SeqEnv := do
   let ij := fieldD j "inters" Json.null
@@ -264,9 +265,14 @@ def parseSeqVal (j : Json) : Except String SeqVal := do
   pure { params := ← opt str (fieldD j "params" Json.null), seed := ← opt nat (fieldD j "seed" Json.null),
          cfg := { learn := ← Coba.C06.Driver.parseLearn (fieldD cj "learn" Json.null),
                   eval := ← Coba.C06.Driver.parseEval (fieldD cj "eval" Json.null),
-                  record := ← strList (← field cj "record") } }
+                  record := ← strList (← field cj "record") },
+         rej := ← (do
+           let rj := fieldD j "rej" Json.null
+           if rj.isNull then pure none else
+             pure (some { record := ← strList (← field rj "record"), cpct := ← ratOfJson (← field rj "cpct"),
+                          cmax := ← ratOfJson (← field rj "cmax"), cinit := ← opt ratOfJson (fieldD rj "cinit" Json.null) })) }
 
-def dfltSeqVal : SeqVal := ⟨none, none, { learn := .on, eval := .on, record := [] }⟩
+def dfltSeqVal : SeqVal := { params := none, seed := none, cfg := { learn := .on, eval := .on, record := [] } }
 
 def mkSeqWorld (envs : List SeqEnv) (lrns : List SeqLrn) (vals : List SeqVal) :
     SeqWorld (Nat × Nat) Coba.C06.Driver.V Coba.C06.Driver.RTab String :=
@@ -314,7 +320,8 @@ def handleSeq (req : Json) : Except String Json := do
   let triples ← (← arr (← field req "triples")).mapM parseTriple
   let cfg ← parseCfg (← field req "cfg")
   let picks ← natList (fieldD req "picks" (Json.arr #[]))
-  let c := seqCompsX (mkSeqWorldX envs lrns vals)
+  -- phase 6: evaluator objects may be RejectionCB objects (`seqCompsR`; without any it is `seqCompsX`, `rejectionCB_conservative`)
+  let c := seqCompsR { x := mkSeqWorldX envs lrns vals, rej := fun v => (vals.getD v dfltSeqVal).rej }
   let evs := runEvents c cfg picks seed triples
   let heap := (List.range lrns.length).map (fun l => Json.arr #[ofNat (evs.2 l).2.1, ofNat (evs.2 l).2.2])
   pure (obj [("model", seqResultJson (run c cfg picks seed triples)),
